@@ -1001,13 +1001,13 @@ func c32(sum *lib.Summary) {
 				len(a.Bits()), len(b.Bits()), bo(a.Sign() >= 0), bo(a.Sign() <= 0), bo(b.Sign() >= 0), bo(b.Sign() <= 0), bo(a.Cmp(b) < 0), b.BitLen(), bo(b.Sign() == 0), lib.Z(shift))
 		}
 		desc := map[string]any{"op": o.Name, "a": trunc(a.String()), "b": trunc(b.String()), "a_words": len(a.Bits()), "b_words": len(b.Bits()), "metered": est, "branch": br}
-		if len(a.Bits()) <= 3 && len(b.Bits()) <= 3 && (*tier == "thorough" || ncoq%7 == 0) {
+		if len(a.Bits()) <= 3 && len(b.Bits()) <= 3 && ((*tier == "thorough" && ncoq%3 == 0) || (*tier != "thorough" && ncoq%7 == 0)) {
 			cw.Add(fmt.Sprintf("(%s, %s, %s, %d)", o.Name, lib.Z(a), lib.Z(b), est), desc)
 			if b.IsUint64() || true {
 				cwv.Add(fmt.Sprintf("(%s, %s, %s)", lib.Z(a), lib.Z(b), sm()), desc)
 			}
 		}
-		if *tier == "thorough" || ncoq%10 == 0 || est < need {
+		if (*tier == "thorough" && ncoq%40 == 0) || (*tier != "thorough" && ncoq%10 == 0) || (est < need && ncoq%3 == 0) {
 			cws.Add(fmt.Sprintf("(%s, %s, %d)", o.Name, sm(), est), desc)
 		}
 		if len(sum.Samples) < 8 && len(a.Bits()) > 1 {
@@ -1049,7 +1049,7 @@ func c32(sum *lib.Summary) {
 	}
 	wl := []int{1, 2, 3, 39, 40, 41, 42, 50, 80, 99, 100, 101, 150, 300}
 	if *tier == "thorough" {
-		for k := 4; k < 300; k += 7 {
+		for k := 4; k < 300; k += 23 {
 			wl = append(wl, k)
 		}
 	}
@@ -1062,7 +1062,7 @@ func c32(sum *lib.Summary) {
 	}
 	nr := 25
 	if *tier == "thorough" {
-		nr = 400
+		nr = 100
 	}
 	for i := 0; i < nr; i++ {
 		z := rng.BigBits(64*(1+rng.Intn(260)) - rng.Intn(64))
